@@ -97,4 +97,65 @@ example : ∃ S', mrun (fun _ => 0) minit exTwo = some S' :=
       have hp : proj o exTwo = [] := by simp [exTwo, proj, Ne.symm h0, Ne.symm h1]
       exact ⟨minit o, by rw [hp]; rfl⟩
 
+/-- **Whole-program happens-before leaves a goroutine through its own release and enters through the other's own
+acquire** — on whatever objects: in every list of events over any number of objects, if position `i` happens
+before position `j` and the two events are executed by different goroutines, the goroutine of `i` itself
+executes a release (unlock, close, publication, leave; of some object) in `[i, j)` and the goroutine of `j`
+itself executes an acquire (lock, observed close, receipt, join; of some object) in `(i, j]`. -/
+theorem C11_many_hb_through_own_release_and_acquire {es : List MEv} {i j : Nat} {e₁ e₂ : MEv} (h : MHB es i j)
+    (h₁ : es[i]? = some e₁) (h₂ : es[j]? = some e₂) (hne : e₁.2.thr ≠ e₂.2.thr) :
+    (∃ p e, i ≤ p ∧ p < j ∧ es[p]? = some e ∧ e.2.isRelease = true ∧ e.2.thr = e₁.2.thr) ∧
+    (∃ q e, i < q ∧ q ≤ j ∧ es[q]? = some e ∧ e.2.isAcquire = true ∧ e.2.thr = e₂.2.thr) :=
+  ⟨mhb_needs_own_release h h₁ h₂ hne, mhb_needs_own_acquire h h₁ h₂ hne⟩
+
+/-- **A lent argument is its own object.**  In every list of events over any number of objects, two accesses to
+object `o` by different goroutines with no release by the first goroutine in `[i, j)` or no acquire by the second
+in `(i, j]` are unordered both ways — whatever locks of OTHER objects (the resource the argument was handed to,
+the logger, the allocator) either of them or anybody else holds or takes in between. -/
+theorem C11_many_lent_argument_unordered {es : List MEv} {o i j t₁ t₂ : Nat} {a b : Access} (hij : i < j)
+    (hi : es[i]? = some (o, XEv.acc t₁ a)) (hj : es[j]? = some (o, XEv.acc t₂ b)) (hne : t₁ ≠ t₂)
+    (hn : mnoReleaseBy es t₁ i j = true ∨ mnoAcquireBy es t₂ i j = true) : ¬ MHB es i j ∧ ¬ MHB es j i :=
+  ⟨fun h => hn.elim
+      (fun hr => not_mhb_of_no_own_release (e₁ := (o, XEv.acc t₁ a)) (e₂ := (o, XEv.acc t₂ b)) hi hj hne hr h)
+      (fun ha => not_mhb_of_no_own_acquire (e₁ := (o, XEv.acc t₁ a)) (e₂ := (o, XEv.acc t₂ b)) hi hj hne ha h),
+   fun h => absurd (mhb_lt h) (by omega)⟩
+
+/-- **The resource's lock does not protect the argument lent to it** (`exLent`: object 0 = a `Value` with its
+mutex, object 1 = the message a caller hands to its write call; goroutine 2 = a goroutine the library starts
+from a timer with the message).  The execution is valid, the events of the message conform to the two
+lock-free rows the extractor emits for a lent argument; the caller's write before it armed the timer happens
+before the timer goroutine's read, but the write the caller's side makes UNDER THE RESOURCE'S WRITE LOCK
+afterwards is unordered with that read both ways: the reader takes no lock. -/
+theorem C11_resource_lock_does_not_protect_lent_argument :
+    mvalid (fun o => if o = 1 then 1 else 0) exLent = true ∧
+    Conforms 1 (fun _ => 0) [lentW, lentR] (proj 1 exLent) ∧
+    exLent[0]? = some (1, XEv.acc 1 lentW) ∧ exLent[4]? = some (1, XEv.acc 1 lentW) ∧
+    exLent[8]? = some (1, XEv.acc 2 lentR) ∧ conflict lentW lentR ∧
+    MHB exLent 0 8 ∧ ¬ MHB exLent 4 8 ∧ ¬ MHB exLent 8 4 := by
+  have h := C11_many_lent_argument_unordered (es := exLent) (o := 1) (i := 4) (j := 8) (t₁ := 1) (t₂ := 2)
+    (a := lentW) (b := lentR) (by decide) rfl rfl (by decide) (Or.inr (by decide))
+  refine ⟨by decide, conformsB_sound (by decide), rfl, rfl, rfl, ⟨rfl, Or.inl rfl⟩, ?_, h.1, h.2⟩
+  exact MHB.trans (MHB.po (i := 0) (j := 1) (e₁ := (1, XEv.acc 1 lentW)) (e₂ := (1, XEv.pub 1)) (by decide) rfl rfl rfl)
+    (MHB.trans (MHB.publ (i := 1) (j := 2) (o := 1) (t := 1) (t' := 2) (by decide) rfl rfl)
+      (MHB.po (i := 2) (j := 8) (e₁ := (1, XEv.get 2)) (e₂ := (1, XEv.acc 2 lentR)) (by decide) rfl rfl rfl))
+
+/-- **Discipline ⇔ no race, with any number of instances**: for every table of well-formed rows, the lock
+discipline holds iff in every many-object execution in which every object's events conform to the table any
+two conflicting accesses to one object by different goroutines are ordered (⇐: a one-object execution is a
+many-object one, `onObj`, with the same happens-before, so the witness of `C11_unordered_pair_has_racy_execution`
+carries over). -/
+theorem C11_many_discipline_iff_no_race {tbl : List Access} (hwf : ∀ a ∈ tbl, WfRow a) :
+    raceFree tbl ↔ MNoRace tbl :=
+  many_noRace_iff hwf
+
+/-- the side condition of the lent-argument theorem is not vacuous: with the read moved before the owner's
+release of ITS OWN publication nothing changes, but once the reader acquires after the writer released (the
+fix: the goroutine is started, i.e. receives the message, after the last write) the accesses are ordered -/
+example : mnoAcquireBy [(1, .acc 1 lentW), (1, .pub 1), (1, .get 2), (1, .acc 2 lentR)] 2 0 3 = false ∧
+    MHB [(1, .acc 1 lentW), (1, .pub 1), (1, .get 2), (1, .acc 2 lentR)] 0 3 :=
+  ⟨by decide,
+   MHB.trans (MHB.po (i := 0) (j := 1) (e₁ := (1, XEv.acc 1 lentW)) (e₂ := (1, XEv.pub 1)) (by decide) rfl rfl rfl)
+    (MHB.trans (MHB.publ (i := 1) (j := 2) (o := 1) (t := 1) (t' := 2) (by decide) rfl rfl)
+      (MHB.po (i := 2) (j := 3) (e₁ := (1, XEv.get 2)) (e₂ := (1, XEv.acc 2 lentR)) (by decide) rfl rfl rfl))⟩
+
 end ScVerif.C11
